@@ -421,3 +421,162 @@ def _assert_branch(f, br):
         if any(i.op == 'call' and i.extra.get('callee') == '__assert_fail' for i in b.insns) and b.term.op == 'unreachable':
             return True
     return False
+
+
+def emit_state_signatures(ctx, prog, pfx):
+    """emit() is resumable through `switch (ds->rle_state)`: a suspension stores state K and leaves; the code after
+    `case K:` is a second copy of the code that follows that suspension point inside the main loop.  Sibling
+    cross-check: for every state K, the *continuation signature* of each suspension site that stores K equals the
+    signature of the code after `case K:`.  The signature is the sequence of primitive events (byte output of the
+    current or of the previous symbol, symbol fetch, tests of the input/output counters, the c==d test) along the
+    path that follows 'not exhausted' and 'equal' edges up to the run-count test -- enough to tell the six states
+    apart (how many equal symbols have been seen, whether the next symbol is already fetched)."""
+    from prov import peel_cond, cmp_norm
+    f = prog.func('decode', 'emit')
+    P = Prov(prog, f)
+    names = reg_var_names(f)
+    FIELD = {'.rle_char': 'c', '.rle_prev': 'd', '.rle_avail': 'a', '.rle_index': 'p', '.rle_crc': 's'}
+
+    def base(e, depth=0):
+        e = strip_casts(e)
+        if e[0] == 'phi':
+            return names.get(e[1], '?')
+        if e[0] == 'load':
+            pk = path_key(e[1][2])
+            if pk in FIELD:
+                return FIELD[pk]
+            if '.tt' in render(e):
+                return 'c'                  # a freshly fetched symbol is the current symbol
+            if 'param:buf_sz' in render(e):
+                return 'm'
+            return '?'
+        if e[0] == 'bin' and e[1] in ('add', 'sub') and depth < 6:
+            k = strip_casts(e[3])
+            if k[0] == 'const':
+                return base(e[2], depth + 1)
+            if e[1] == 'sub':
+                l = base(e[2], depth + 1)
+                return l if l in ('m', 'a') and base(e[3], depth + 1) == 'c' else l + '-' + base(e[3], depth + 1)
+        if e[0] == 'const':
+            return str(e[1])
+        return '?'
+
+    def follow(start, max_events=40, skip_first=False):
+        ev = []
+        bn = start
+        prev = None
+        seen = set()
+        first = skip_first
+        while len(ev) < max_events:
+            if bn in seen:
+                ev.append('loop')
+                break
+            seen.add(bn)
+            bl = f.blocks[bn]
+            for i in bl.insns:
+                if first:
+                    break               # (events of the block before its test belong to the previous step)
+                if i.op == 'store' and i.extra['vty'] == ('int', 8) and 'rle_' not in addr_key(P.addr(i.ops[1])):
+                    ev.append('out(%s)' % base(P.expr(i.ops[0])))
+                elif i.op == 'load' and i.ty == ('int', 32) and '.tt)[' in render(P.expr(('reg', i.res))):
+                    ev.append('fetch')
+            first = False
+            t = bl.term
+            if t.op == 'ret':
+                ev.append('ret')
+                break
+            if t.op != 'br':
+                ev.append(t.op)
+                break
+            tg = t.extra['targets']
+            if len(tg) == 1:
+                prev, bn = bn, tg[0]
+                continue
+            c, pol = peel_cond(P.expr(t.ops[0]))
+            # short-circuit result: resolve the boolean phi by the edge we came in on
+            guard = 0
+            decided = None
+            while strip_casts(c)[0] == 'phi' and strip_casts(c)[2].block is bl and guard < 4:
+                guard += 1
+                ph = strip_casts(c)[2]
+                inc = [v for v, src in ph.extra['incoming'] if src == prev]
+                if not inc:
+                    break
+                if inc[0][0] == 'int':
+                    decided = bool(inc[0][1] & 1) == pol
+                    break
+                c2, p2 = peel_cond(P.expr(inc[0]))
+                c, pol = c2, (pol == p2)
+            if decided is not None:
+                prev, bn = bn, (tg[0] if decided else tg[1])
+                continue
+            cn = cmp_norm(c)
+            if cn is None:
+                v = base(c)
+                if v in ('a', 'm'):
+                    ev.append(v + '?')
+                    prev, bn = bn, (tg[0] if pol else tg[1])          # value non-zero: not exhausted
+                    continue
+                ev.append('br?[%s]' % render(c)[:60])
+                break
+            pred, x, y = cn
+            bx, by = base(x), base(y)
+            if y in (('const', -1), ('const', 0xFFFFFFFF)) and pred in ('ne', 'eq'):
+                prev, bn = bn, ((tg[0] if pol else tg[1]) if pred == 'ne' else (tg[1] if pol else tg[0]))     # not the sentinel
+                continue
+            if y == ('const', 0) and bx in ('a', 'm') and pred in ('ne', 'eq', 'ugt'):
+                ev.append(bx + '?')
+                nz = pred in ('ne', 'ugt')
+                prev, bn = bn, ((tg[0] if pol else tg[1]) if nz else (tg[1] if pol else tg[0]))
+                continue
+            if {bx, by} <= {'c', 'd'} and pred in ('ne', 'eq'):
+                ev.append('c==d?')
+                prev, bn = bn, ((tg[1] if pol else tg[0]) if pred == 'ne' else (tg[0] if pol else tg[1]))      # equal edge
+                continue
+            if {bx, by} == {'m', 'c'} or 'm-c' in (bx, by) or {bx, by} == {'m', 'm-c'}:
+                ev.append('m<c?')
+                break
+            ev.append('br(%s %s %s)' % (bx, pred, by))
+            break
+        return tuple(ev)
+    sw = [i for i in f.insns() if i.op == 'switch']
+    if len(sw) != 1:
+        broken('emit(): dispatch switch not found')
+    labels = {cv: follow(tg) for cv, tg in sw[0].extra['cases']}
+    ctx.floor(pfx + ' emit(): resume labels', len(labels), 5)
+    sites = []
+    for i in f.insns():
+        if i.op == 'store' and path_key(P.addr(i.ops[1])[2]) == '.rle_state':
+            v = strip_casts(P.expr(i.ops[0]))
+            if v[0] != 'const':
+                broken('emit(): non-constant store to rle_state at %s' % f.loc(i))
+            for pb in i.block.preds:
+                t = f.blocks[pb].term
+                if t.op == 'br' and len(t.extra['targets']) == 2:
+                    # the test whose failing edge suspends: its signature starts at the test itself
+                    sites.append((v[1], i, follow(pb, skip_first=True)))
+    ctx.floor(pfx + ' emit(): suspension sites', len(sites), 8)
+    bad = []
+    for k, ins, sig in sites:
+        if k not in labels:
+            bad.append('%s: state %d has no resume label' % (f.loc(ins), k))
+            continue
+        want = labels[k]
+        if want[:1] == ('m<c?',):
+            # the partial-run state: suspended in the middle of expanding a counted run; the label re-tests the
+            # remaining count against the free space.  Its sites must lie under such a test.
+            dom = cfg.dominators(f)
+            under = any(follow(d, skip_first=True)[:1] == ('m<c?',) for d in dom[ins.block.name] if d != ins.block.name
+                        and f.blocks[d].term.op == 'br' and len(f.blocks[d].term.extra['targets']) == 2)
+            if not under:
+                bad.append('%s: state %d is stored outside the partial-run branch' % (f.loc(ins), k))
+            continue
+        n = min(len(sig), len(want))
+        if n < 3 or sig[:n] != want[:n]:
+            bad.append('%s: suspension stores state %d, but the code that follows it (%s) differs from the code after '
+                       '`case %d:` (%s)' % (f.loc(ins), k, ' '.join(sig[:8]), k, ' '.join(want[:8])))
+    distinct = len(set(labels.values()))
+    ctx.ob(pfx + '.emit.resume_states', 'emit(): every suspension resumes at the label whose code continues exactly '
+           'where it stopped (continuation signatures of %d suspension sites vs. %d resume labels, %d distinct)' % (
+               len(sites), len(labels), distinct), f.loc(sw[0]), not bad and distinct >= 5, '; '.join(bad[:3]) or
+           ', '.join('%d: %s' % (k, ' '.join(v[:6])) for k, v in sorted(labels.items())), evals=len(sites) + len(labels))
